@@ -5,6 +5,7 @@ import (
 	"go/types"
 	"math"
 	"path/filepath"
+	"strconv"
 	"strings"
 
 	"golang.org/x/tools/go/ssa"
@@ -199,7 +200,12 @@ func init() {
 
 	// ---- math ----
 	m1 := func(name string, f func(float64) float64) {
-		reg(name, func(th *Thread, fr *frame, fn *ssa.Function, args []Value) Value { return f(args[0].(float64)) })
+		reg(name, func(th *Thread, fr *frame, fn *ssa.Function, args []Value) Value {
+			if _, ok := args[0].(OpaqueFloat); ok {
+				return OpaqueFloat{}
+			}
+			return f(args[0].(float64))
+		})
 	}
 	m1("math.Abs", math.Abs)
 	m1("math.Floor", math.Floor)
@@ -212,7 +218,12 @@ func init() {
 	m1("math.Exp", math.Exp)
 	m1("math.Round", math.Round)
 	reg("math.Pow", func(th *Thread, fr *frame, fn *ssa.Function, args []Value) Value {
-		return math.Pow(args[0].(float64), args[1].(float64))
+		x, ok1 := args[0].(float64)
+		y, ok2 := args[1].(float64)
+		if !ok1 || !ok2 {
+			return OpaqueFloat{}
+		}
+		return math.Pow(x, y)
 	})
 	reg("math.Mod", func(th *Thread, fr *frame, fn *ssa.Function, args []Value) Value {
 		return math.Mod(args[0].(float64), args[1].(float64))
@@ -239,6 +250,26 @@ func init() {
 		r, n := th.decodeRune(mkStrSym(bytesOf(args[0])), 0)
 		return Tuple{r, intV(int64(n))}
 	})
+
+	// ---- strconv on symbolic integers: opaque text (digits are never the subject) ----
+	for _, n := range []string{"strconv.FormatInt", "strconv.FormatUint", "strconv.Itoa"} {
+		name := n
+		reg(name, func(th *Thread, fr *frame, fn *ssa.Function, args []Value) Value {
+			t := args[0].(*Term)
+			if t.Op != OpConst {
+				th.p.w.res.Intrinsics["strconv: symbolic integer rendered opaquely"]++
+				return Str{S: "‹n›"}
+			}
+			base := 10
+			if len(args) > 1 {
+				base = int(th.concInt(args[1]))
+			}
+			if name == "strconv.FormatUint" {
+				return Str{S: strconv.FormatUint(t.Val, base)}
+			}
+			return Str{S: strconv.FormatInt(t.SInt(), base)}
+		})
+	}
 
 	// ---- sort ----
 	reg("sort.Slice", sortSlice)
